@@ -49,11 +49,32 @@ Theorem C17_name_unescape :
   forall sp : spelling, sp_legal sp = true -> unescape (render_sp sp) = Ok (sp_value sp).
 Proof. exact unescape_render. Qed.
 
+(* column names are ST_Xstrings (ECMA-376 Part 1, 18.5.1.3 / 22.9.2.19): the name of a column is the
+   text of its header cell, so a line break typed with Alt+Enter arrives as a_x000a_b.  (1) Every
+   legal spelling of the attribute value — XML escapes around or inside the _xHHHH_ escapes — is
+   reported as the name its two layers declare ([xs_decode] is the format's decoding, written
+   from 22.9.2.19: exactly four hexadecimal digits of either case, one pass, an escape naming a
+   surrogate stays as written).  (2) Any text at all (every byte string), written the way Excel
+   writes it — every underscore as _x005F_, any chosen ASCII characters as _x00HH_ with upper- or
+   lower-case digits, then the usual XML attribute escaping — is reported as that text. *)
+Theorem C17_column_name_xstring :
+  (forall sp : spelling, sp_legal sp = true ->
+     column_names [(s_name, render_sp sp)] = Ok [xs_decode (sp_value sp)]) /\
+  (forall (up : bool) (must : N -> bool) (s : str),
+     sp_legal (esc_sp (xs_escape up must s)) = true /\
+     col_value (esc_sp (xs_escape up must s)) = s /\
+     column_names [(s_name, render_sp (esc_sp (xs_escape up must s)))] = Ok [s]).
+Proof. exact column_name_exact. Qed.
+
 (* tables: load_tables yields, in the order sheets x relationships, a list that shows the
    declared name, sheet, column names and data box of every table (None for a table without data
    rows) — for both relationship type URIs, "../" and absolute targets, every legal spelling of
    the names, every xsd:boolean spelling of insertRow, tables anywhere on the sheet including
-   row 1.  No class of inputs is excepted any more. *)
+   row 1.  No class of inputs is excepted any more.  The declared column names ([tl_cols], the
+   texts of the header cells) are what the attribute values denote through BOTH layers
+   ([table_choice_legal]: map col_value (tc_cols_sp c) = tl_cols t, col_value = xs_decode after
+   the XML layer), so a_x000a_b declares "a<LF>b" — before audit 2 the domain read the value
+   through the XML layer only, as the code did. *)
 Theorem C17_table_meta_exact :
   forall (z : zip) (wb : list sheet_e),
     legal wb = true -> Forall sheet_dom wb -> zip_has_tables z wb ->
@@ -189,7 +210,8 @@ Proof. exact ex_no_panic_nonvacuous. Qed.
    The example workbook meets every hypothesis of the xlsx theorems and uses each form that the
    first round had to except as a known class (strict type URI, absolute target, escaped names
    with named entities and character references, insertRow="false", a header-only table, a
-   totals-only table in row 1). *)
+   totals-only table in row 1), and — audit 2, XLSX-1 — column names that use the ST_Xstring
+   layer: a_x000a_b, _x005F_x000a_, _x00e9_, a_x00&#48;D_b. *)
 Example C17_xlsx_nonvacuous :
   legal ex_wb = true /\ Forall sheet_dom ex_wb /\
   zip_has_sheets (build_zip ex_wb) ex_wb /\ zip_has_tables (build_zip ex_wb) ex_wb /\
@@ -200,11 +222,11 @@ Example C17_xlsx_nonvacuous :
         (x_S1, s_xl_worksheets ++ x_sheet1, ((2, 26), (3, 702)))] /\
   read_table_metadata (build_zip ex_wb) (sheets_of ex_wb) =
     Ok [(x_T1, x_S1, [x_PL; x_blt], ((2, 1), (3, 2)));
-        (x_H, x_S1, [x_a; x_b], ((7, 1), (6, 2)));
-        (x_X, x_S1, [x_a; x_b], ((1, 4), (0, 5)))] /\
+        (x_H, x_S1, [x_anb; x_esclike], ((7, 1), (6, 2)));
+        (x_X, x_S1, [x_eacute; x_arb], ((1, 4), (0, 5)))] /\
   spec_tables ex_wb =
     [(x_T1, x_S1, [x_PL; x_blt], Some ((2, 1), (3, 2)));
-     (x_H, x_S1, [x_a; x_b], None); (x_X, x_S1, [x_a; x_b], None)].
+     (x_H, x_S1, [x_anb; x_esclike], None); (x_X, x_S1, [x_eacute; x_arb], None)].
 Proof. exact ex_wb_nonvacuous. Qed.
 
 Example C17_name_nonvacuous :
@@ -215,15 +237,28 @@ Example C17_name_nonvacuous :
   sp_value sp = [98; 38; 60; 195; 164; 240; 159; 152; 128].         (* b&<ä + U+1F600 in UTF-8 *)
 Proof. exact (conj eq_refl (conj eq_refl eq_refl)). Qed.
 
+(* the ST_Xstring forms of the example workbook, one by one, and Excel's own spelling of them *)
+Example C17_column_name_nonvacuous :
+  col_value [PLit [97; 95; 120; 48; 48; 48; 97; 95; 98]] = x_anb /\                       (* a_x000a_b *)
+  col_value [PLit [95; 120; 48; 48; 53; 70; 95; 120; 48; 48; 48; 97; 95]] = x_esclike /\   (* _x005F_x000a_ *)
+  col_value [PLit [95; 120; 48; 48; 101; 57; 95]] = x_eacute /\                           (* _x00e9_ *)
+  col_value [PLit [97; 95; 120; 48; 48]; PDec 48 2; PLit [68; 95; 98]] = x_arb /\          (* a_x00&#48;D_b *)
+  col_value [PLit [95; 120; 68; 56; 48; 48; 95]] = [95; 120; 68; 56; 48; 48; 95] /\        (* _xD800_ stays *)
+  xs_escape true xs_excel_must x_anb = [97; 95; 120; 48; 48; 48; 65; 95; 98] /\            (* a_x000A_b *)
+  xs_escape false xs_excel_must x_esclike =
+    [95; 120; 48; 48; 53; 102; 95; 120; 48; 48; 48; 97; 95; 120; 48; 48; 53; 102; 95] /\   (* _x005f_x000a_x005f_ *)
+  column_names [(s_name, [97; 95; 120; 48; 48; 48; 97; 95; 98])] = Ok [x_anb].
+Proof. vm_compute. repeat split. Qed.
+
 Example C17_table_data_nonvacuous :
   let tables := [(x_T1, x_S1, [x_PL; x_blt], ((2, 1), (3, 2)));
-                 (x_H, x_S1, [x_a; x_b], ((7, 1), (6, 2)));
-                 (x_X, x_S1, [x_a; x_b], ((1, 4), (0, 5)))] in
+                 (x_H, x_S1, [x_anb; x_esclike], ((7, 1), (6, 2)));
+                 (x_X, x_S1, [x_eacute; x_arb], ((1, 4), (0, 5)))] in
   let range := fun _ : str => from_sparse 0 [((0, 0), 7); ((2, 1), 5)] in
   table_by_name 0 range tables x_T1 =
     Ok (x_T1, x_S1, [x_PL; x_blt], mkRange (2, 1) (3, 2) [5; 0; 0; 0]) /\
-  table_by_name 0 range tables x_H = Ok (x_H, x_S1, [x_a; x_b], empty) /\
-  table_by_name 0 range tables x_X = Ok (x_X, x_S1, [x_a; x_b], empty).
+  table_by_name 0 range tables x_H = Ok (x_H, x_S1, [x_anb; x_esclike], empty) /\
+  table_by_name 0 range tables x_X = Ok (x_X, x_S1, [x_eacute; x_arb], empty).
 Proof. exact ex_table_data. Qed.
 
 Example C17_cells_nonvacuous : pre (@empty N) (OFromSparse [((0, 0), 7); ((2, 1), 5)]).
@@ -254,6 +289,13 @@ Check C17_table_meta_exact :
       read_table_metadata z (sheets_of wb) = Ok tables /\ map entry_obs tables = spec_tables wb.
 Check C17_name_unescape :
   forall sp : spelling, sp_legal sp = true -> unescape (render_sp sp) = Ok (sp_value sp).
+Check C17_column_name_xstring :
+  (forall sp : spelling, sp_legal sp = true ->
+     column_names [(s_name, render_sp sp)] = Ok [xs_decode (sp_value sp)]) /\
+  (forall (up : bool) (must : N -> bool) (s : str),
+     sp_legal (esc_sp (xs_escape up must s)) = true /\
+     col_value (esc_sp (xs_escape up must s)) = s /\
+     column_names [(s_name, render_sp (esc_sp (xs_escape up must s)))] = Ok [s]).
 Check C17_merge_list_exact_xls :
   forall wb : list xls_sheet_e,
     forallb xls_sheet_legal wb = true -> Forall xls_sheet_dom wb -> NoDup (map xs_name wb) ->
@@ -280,6 +322,7 @@ Print Assumptions C17_merge_ref_roundtrip.
 Print Assumptions C17_merge_list_exact_xlsx.
 Print Assumptions C17_merge_list_exact_xls.
 Print Assumptions C17_name_unescape.
+Print Assumptions C17_column_name_xstring.
 Print Assumptions C17_table_meta_exact.
 Print Assumptions C17_table_names.
 Print Assumptions C17_table_geometry.
